@@ -206,3 +206,69 @@ pub(crate) mod boxed {
 pub(crate) fn must_have_panicked() {
     panic!("VERIF-MUST-PANIC: operation returned normally where its documentation says it panics");
 }
+
+/// RNG stub: a bounded symbolic tape of 64-bit outputs, then a fixed fallback word
+/// (so every rejection sampler terminates; the tape length is a stated bound).
+#[cfg(feature = "rand_core")]
+pub(crate) mod tape {
+    pub(crate) const TAPE: usize = 6;
+    pub(crate) struct Tape {
+        pub w: [u64; TAPE],
+        pub len: usize,
+        pub pos: usize,
+        pub fallback: u64,
+        pub bytes: usize,
+    }
+    impl Tape {
+        /// `len` symbolic words (len <= TAPE), then `fallback` forever.
+        pub(crate) fn any(len: usize, fallback: u64) -> Self {
+            let mut w = [0u64; TAPE];
+            let mut i = 0;
+            while i < TAPE {
+                if i < len {
+                    w[i] = kani::any();
+                }
+                i += 1;
+            }
+            Tape { w, len, pos: 0, fallback, bytes: 0 }
+        }
+        pub(crate) fn from_words(ws: &[u64], fallback: u64) -> Self {
+            let mut w = [0u64; TAPE];
+            let mut i = 0;
+            while i < ws.len() && i < TAPE {
+                w[i] = ws[i];
+                i += 1;
+            }
+            Tape { w, len: ws.len(), pos: 0, fallback, bytes: 0 }
+        }
+        fn word(&mut self) -> u64 {
+            let v = if self.pos < self.len { self.w[self.pos] } else { self.fallback };
+            self.pos += 1;
+            v
+        }
+    }
+    impl rand_core::RngCore for Tape {
+        fn next_u32(&mut self) -> u32 {
+            self.bytes += 4;
+            self.word() as u32
+        }
+        fn next_u64(&mut self) -> u64 {
+            self.bytes += 8;
+            self.word()
+        }
+        fn fill_bytes(&mut self, d: &mut [u8]) {
+            // one tape word per byte (low 8 bits): keeps the byte stream fully symbolic
+            for b in d.iter_mut() {
+                *b = self.word() as u8;
+            }
+            self.bytes += d.len();
+        }
+    }
+}
+
+/// Top limb of a signed value: S(k) with an extra free flip of the sign bit, so that values next to
+/// 0, -1, MIN and MAX are all inside the shape.
+pub(crate) fn shaped_signed_top(k: u32) -> Word {
+    let f: bool = kani::any();
+    shaped_word(k) ^ if f { (1 as Word) << (Word::BITS - 1) } else { 0 }
+}
